@@ -29,7 +29,7 @@ COMPONENTS = {
     "real": ["eolib.data.EoWriter", "eolib.data.EoReader", "number and string codecs"],
     "stub_or_harness": ["history generator", "expected-value computation"],
 }
-PROBES = ["output_taken_mid_history", "refused_write_in_history", "very_long_padding", "same_string_written_again", "perfect_fit_padded", "empty_string", "non_cp1252_character", "int_at_max", "trailing_unbounded_string",
+PROBES = ["mode_toggled_back_between_writes", "output_taken_mid_history", "refused_write_in_history", "very_long_padding", "same_string_written_again", "perfect_fit_padded", "empty_string", "non_cp1252_character", "int_at_max", "trailing_unbounded_string",
           "y_diaeresis_in_unpadded_string", "empty_padded_string"]
 
 INT_KINDS = ["char", "short", "three", "int"]
@@ -49,6 +49,11 @@ def generate(streams, tier):
         if rng.random() < 0.04:
             # a write that must be refused (and leave nothing behind); the history goes on afterwards
             ops.append(["refused", pool.get(vr, min_len=2), rng.choice(["fixed", "fixed_encoded", "padded"])])
+            continue
+        if rng.random() < 0.04:
+            # sanitisation is switched on and off again with nothing written in between (what every generated
+            # serializer with a <chunked> section does to the writer it is given): no effect on later writes
+            ops.append(["toggle", rng.choice(["on-off", "on-off", "on-off-twice", "off"])])
             continue
         if rng.random() < 0.05:
             # the receiver takes what has been written so far (incremental delivery); the writer is used further
@@ -98,6 +103,13 @@ def execute(plan, env):
     taken = []          # (the object handed out, its content when it was handed out, a reader kept open on it or None)
     for step, o in enumerate(ops):
         k = o[0]
+        if k == "toggle":
+            for _ in range(2 if o[1] == "on-off-twice" else 1):
+                if o[1] != "off":
+                    w.string_sanitization_mode = True
+                w.string_sanitization_mode = False
+            res.count("probe.mode_toggled_back_between_writes")
+            continue
         if k == "flush":
             try:
                 snap = w.to_bytearray()
@@ -176,7 +188,7 @@ def execute(plan, env):
     r = EoReader(bytes(out))
     for step, o in enumerate(ops):
         k = o[0]
-        if k in ("refused", "flush"):
+        if k in ("refused", "flush", "toggle"):
             continue
         try:
             if k == "byte":
@@ -201,10 +213,10 @@ def execute(plan, env):
                         f"item {step} written as {o!r} read back as {got!r}, expected {want!r}", step)
     if r.remaining != 0 or r.position != len(out):
         return fail("not-consumed", "end", f"after reading everything remaining={r.remaining} position={r.position} len={len(out)}", len(ops))
-    kinds = [o[0] + ("P" if len(o) > 3 and o[3] else "") for o in ops if o[0] != "flush"] + (["flush"] if taken else [])
+    kinds = [o[0] + ("P" if len(o) > 3 and o[3] else "") for o in ops if o[0] not in ("flush", "toggle")] + (["flush"] if taken else [])
     if len(ops) >= 2:
         classes = sorted({("y" if "ÿ" in o[1] else "") + ("u" if image(o[1]) != o[1] else "") + ("e" if not o[1] else "")
-                          for o in ops if isinstance(o[1], str) and o[0] not in ("refused", "flush")})
+                          for o in ops if isinstance(o[1], str) and o[0] not in ("refused", "flush", "toggle")})
         res.keys.add(",".join(kinds[:3]) + "|" + "/".join(classes))
     res.digest = tr.digest()
     res.steps = tr.steps
